@@ -830,22 +830,53 @@ def direct_validation(ctx):
                 stats.get("nosuccess", 0)))
     ctx.log("worst conserving T33 residual at", stats.get("worst33_where"),
             "; worst asymptote at", stats.get("worst_asym_where"))
+    # the RECORDED input of the known finding is replayed on every run (deterministic)
+    recorded = []
+    rpath = os.path.join(vlib.VERIF, "findings", "C04_success_without_root.json")
+    if os.path.exists(rpath):
+        with open(rpath) as fh:
+            rec_in = json.load(fh)
+        try:
+            res = run_profile(rec_in["model"], rec_in["vw"], rec_in["widths"], rec_in["offsets"],
+                              rec_in["moments"], rec_in["seed"], rec_in["amp"],
+                              errTol=rec_in.get("errTol", 1e-6))
+            ctx.count("recorded_finding_replayed", nontrivial=False)
+            base = {k: rec_in[k] for k in ("model", "vw", "widths", "offsets", "moments",
+                                           "seed", "amp")}
+            base.update(kind="profile", errTol=rec_in.get("errTol", 1e-6))
+            for d in res.get("points", []):
+                if d["path"] == "early" and res["branch"] == "hybrid" and res["success"] and \
+                        abs(d["r33"]) > tol_cons(base["errTol"]):
+                    recorded.append(dict(base, k=d["k"], r33=d["r33"], T=d["T"], v=d["v"],
+                                         fmin_rel=d["fmin_rel"]))
+            if not recorded:
+                ctx.log("recorded input findings/C04_success_without_root.json no longer shows "
+                        "success without a root (branch %s, success %s)" % (
+                            res.get("branch"), res.get("success")))
+        except Exception as ex:                          # noqa: BLE001
+            ctx.log("replay of findings/C04_success_without_root.json raised %r" % ex)
     f = stats.get("finding", [])
-    if f:
-        f.sort(key=lambda d: -abs(d["r33"]))
-        top = f[0]
+    recorded.sort(key=lambda d: -abs(d["r33"]))
+    f.sort(key=lambda d: -abs(d["r33"]))
+    if recorded or f:
+        top = (recorded or f)[0]
         what = ("hybrid wall with non-zero moments behind the wall: findPlasmaProfilePoint "
                 "returns the position of a POSITIVE minimum of the Eq.(20) LHS (no root) and "
                 "findPlasmaProfile keeps successTemperatureProfile=True; T33 is off by "
-                "%.2e |c2| at grid point %d (%d such points in this run; model %s vw=%g)" % (
-                    top["r33"], top["k"], len(f), top["model"], top["vw"]))
-        ctx.cov["finding_success_without_root"] = dict(count=len(f), worst=top)
+                "%.2e |c2| at grid point %d (model %s vw=%g, %s; %d such points on the recorded "
+                "input, %d more in this run's random profiles)" % (
+                    top["r33"], top["k"], top["model"], top["vw"],
+                    "recorded input findings/C04_success_without_root.json" if recorded
+                    else "random profile", len(recorded), len(f)))
+        ctx.cov["finding_success_without_root"] = dict(recorded_input_points=len(recorded),
+                                                       random_run_points=len(f), worst=top)
+        ctx.write("finding_success_without_root.json", json.dumps(top, indent=1))
         if registered(ctx, FINDING_KEY):
             ctx.fail_input(what, top, key=FINDING_KEY)
         else:
-            path = ctx.write("finding_success_without_root.json", json.dumps(top, indent=1))
             ctx.log("FINDING (not registered in known_findings.json, not counted):", what)
-            ctx.log("  replay: ./check C04 --replay", path)
+            ctx.log("  replay: ./check C04 --replay",
+                    os.path.join(ctx.bdir, "finding_success_without_root.json"))
 
 
 # =====================================================================================
